@@ -80,6 +80,9 @@ ZeroPad(digits, width) == IF Len(digits) >= width THEN digits ELSE ZeroPad(<<48>
 RECURSIVE PyRewriteFrom(_, _)
 PyRewriteFrom(s, i) ==
   IF i > Len(s) THEN <<>>
+  \* an escaped backslash is one token: what follows it is literal text, never an escape (D15: "\\u{3}" is a
+  \* backslash and three times the letter u)
+  ELSE IF s[i] = 92 /\ i + 1 <= Len(s) /\ s[i + 1] = 92 THEN <<92, 92>> \o PyRewriteFrom(s, i + 2)
   ELSE IF s[i] = 92 /\ i + 2 <= Len(s) /\ s[i + 1] = 117 /\ s[i + 2] = 123
        THEN LET n == HexRun(s, i + 3) IN
             IF n >= 1 /\ n <= 6 /\ i + 3 + n <= Len(s) /\ s[i + 3 + n] = 125
@@ -95,5 +98,6 @@ PyRewrite(s, cfg) == IF cfg.escape THEN PyRewriteFrom(s, 1) ELSE s
 RECURSIVE HasBraceEscapeFrom(_, _)
 HasBraceEscapeFrom(s, i) ==
   IF i + 2 > Len(s) THEN FALSE
+  ELSE IF s[i] = 92 /\ s[i + 1] = 92 THEN HasBraceEscapeFrom(s, i + 2)      \* escaped backslash: one token
   ELSE (s[i] = 92 /\ s[i + 1] = 117 /\ s[i + 2] = 123) \/ HasBraceEscapeFrom(s, i + 1)
 =============================================================================
